@@ -264,7 +264,14 @@ namespace sqf::parser::config
                             m_line++;
                             m_column = 0;
                         }
-                        ++iter;
+                        if (iter == m_end)
+                        { // unterminated string
+                            break;
+                        }
+                        else
+                        {
+                            iter++;
+                        }
                     }
                     // set length
                     len = iter - m_current;
